@@ -396,3 +396,50 @@ def run(ck):
               "parse / parseRaw resolve to an override" if b_ is None else
               "for %s the virtual methods %s resolve to implementations that call each other unconditionally: parsing this header never returns" % (sub, " <-> ".join(b_[0])),
               structural=True)
+
+    # ---------------- R14: no pointer into the receive buffer outlives the buffer ----------------
+    ck.rule("C03-R14", "C typestate (dangling pointer into the receive buffer)",
+            "a pointer into the parser's receive buffer (StreamCursor::offset(), Token::rawText(), or what a library function returns "
+            "from them) is not used after a call that releases or re-allocates that buffer -- the parser's reset() and feed(): the bytes it "
+            "points to are freed (reset) or moved (growth), and reading them is a use after free", 1)
+    PTR_SRC = {CUR + "offset", CUR + "Token::rawText"}
+    INVAL = {H + "Private::ParserBase::reset", H + "Private::ParserImpl::reset", H + "Private::ParserBase::feed", "Pistache::ArrayStreamBuf::feed",
+             "Pistache::ArrayStreamBuf::reset"}
+    # library functions that hand such a pointer out (one level)
+    giver = set()
+    for g_ in prog.library_funcs():
+        for r_ in g_.events("return"):
+            if any(x_.startswith("c:") and strip_tmpl(x_[2:]) in PTR_SRC for x_ in (r_.get("refs") or [])):
+                giver.add(g_.base)
+    nptr = 0
+    for f in prog.library_funcs():
+        if not f.blocks:
+            continue
+        for d_ in f.events("decl"):
+            refs_ = [strip_tmpl(x_[2:]) for x_ in (d_.get("refs") or []) if x_.startswith("c:")]
+            if not d_.get("var") or not (set(refs_) & (PTR_SRC | giver)):
+                continue
+            # (a std::string built from the pointer owns its bytes: only pointer-like and pair/tuple/view locals carry the address on)
+            ty_ = (d_.get("ctype") or d_.get("type") or "")
+            if "basic_string<" in ty_ and "basic_string_view" not in ty_ and "pair" not in ty_ and "tuple" not in ty_:
+                continue
+            if not ("*" in ty_ or "pair" in ty_ or "tuple" in ty_ or "basic_string_view" in ty_ or ty_.strip() in ("auto", "const auto")):
+                continue
+            nptr += 1
+            v_ = d_["var"]
+            bad = None
+            for iv in [e for e in cfg.events_after(f, d_) if e["k"] == "call" and strip_tmpl(e.get("callee") or "") in INVAL]:
+                for u_ in cfg.events_after(f, iv):
+                    if u_ is d_:
+                        break       # the local is given a new value on the way round a loop
+                    if ("v:" + v_) in (u_.get("refs") or []) or (u_.get("v") == v_ and u_["k"] == "use") or (u_.get("root") == v_ and u_["k"] in ("use", "member")):
+                        bad = (iv, u_)
+                        break
+                if bad:
+                    break
+            ck.ob("C03-R14", "%s/%s" % (f.base.replace("Pistache::", ""), v_), bad is None, d_.loc, f,
+                  "not used after a reset() / feed() of the buffer it points into" if bad is None else
+                  "`%s` points into the receive buffer (line %s); %s at line %s releases or moves that buffer, and `%s` is used again at line %s"
+                  % (v_, d_.get("l"), (bad[0].get("callee") or "").rsplit("::", 2)[-1], bad[0].get("l"), v_, bad[1].get("l")))
+    ck.ob("C03-R14", "pointers-into-the-buffer", True, "", "", "%d local pointer(s) into the receive buffer followed; %d function(s) hand one out" % (nptr, len(giver)), nontrivial=False)
+
